@@ -535,6 +535,48 @@ func (r *Rig) signTx(a *Account, seq uint64, memo string, msgs ...sdk.Msg) ([]by
 	return r.TxConfig.TxEncoder()(txb.GetTx())
 }
 
+// MkMulti builds a tx signed by several accounts (in the order given, which must be the order in which the messages
+// first name their signers); every signer's local sequence advances.
+func (r *Rig) MkMulti(as []*Account, tag any, msgs ...sdk.Msg) Tx {
+	txb := r.TxConfig.NewTxBuilder()
+	if err := txb.SetMsgs(msgs...); err != nil {
+		panic(err)
+	}
+	txb.SetGasLimit(500_000_000)
+	txb.SetFeeAmount(sdk.NewCoins())
+	mode := signing.SignMode_SIGN_MODE_DIRECT
+	sigs := make([]signing.SignatureV2, len(as))
+	for i, a := range as {
+		sigs[i] = signing.SignatureV2{PubKey: a.Priv.PubKey(), Data: &signing.SingleSignatureData{SignMode: mode}, Sequence: a.Seq}
+	}
+	if err := txb.SetSignatures(sigs...); err != nil {
+		panic(err)
+	}
+	for i, a := range as {
+		sd := authsign.SignerData{ChainID: ChainID, AccountNumber: a.AccNum, Sequence: a.Seq, PubKey: a.Priv.PubKey(), Address: a.Addr.String()}
+		bz, err := authsign.GetSignBytesAdapter(context.Background(), r.TxConfig.SignModeHandler(), mode, sd, txb.GetTx())
+		if err != nil {
+			panic(err)
+		}
+		sbz, err := a.Priv.Sign(bz)
+		if err != nil {
+			panic(err)
+		}
+		sigs[i].Data = &signing.SingleSignatureData{SignMode: mode, Signature: sbz}
+	}
+	if err := txb.SetSignatures(sigs...); err != nil {
+		panic(err)
+	}
+	out, err := r.TxConfig.TxEncoder()(txb.GetTx())
+	if err != nil {
+		panic(err)
+	}
+	for _, a := range as {
+		a.Seq++
+	}
+	return Tx{Bytes: out, Tag: tag}
+}
+
 // Tx is a pending transaction with a director tag.
 type Tx struct {
 	Bytes []byte
